@@ -3,7 +3,7 @@ from ..level import LevelAnalysis
 from ..queue import QueueAnalysis
 from ..terms import short, subterms
 from ..common import describe_path
-from .c01 import check_constructors
+from .c01 import check_constructors, rule_readd_every_element
 from .c09 import _places_of_rv
 
 RULES = {
@@ -11,6 +11,7 @@ RULES = {
     "V1": "carried aggregates are never believed: PriceLevelData.{visible_quantity,hidden_quantity,order_count} are not read on the TryFrom/Deserialize path; PriceLevel::from_str looks up only the keys `price` and `orders`",
     "V2": "listing: to_vec is a collect over the map's iteration (each entry once) whose only mutation is an ascending sort on timestamp()",
     "V3": "constructors are total: from_snapshot, From<&PriceLevelSnapshot> and TryFrom<PriceLevelData> have no error path (and no panic path in their own code)",
+    "V6": "the JSON routes are symmetric: no asymmetric serde attribute (skip*/default/with/flatten/..) on any type the snapshot, package or level data is made of; OrderId's JSON form is its text form, written with to_string(), read as an owned string through from_str, and that pair round-trips",
     "V5": "snapshot() reads price/aggregates/orders of self through the public accessors and the listing, nothing else",
 }
 
@@ -29,6 +30,10 @@ def run(ctx, chk):
     L = LevelAnalysis(ctx)
     Q = QueueAnalysis(ctx)
     check_constructors(ctx, chk, L)
+    rule_readd_every_element(ctx, chk, "L4")
+    from .c17 import rule_serde_attrs, rule_order_id_json
+    rule_serde_attrs(ctx, chk, "V6", "V6")
+    rule_order_id_json(ctx, chk, "V6")
     # ---------------- V1
     data_adt = db.adt("price_level::level::PriceLevelData")
     carried = {"visible_quantity", "hidden_quantity", "order_count"}
